@@ -143,6 +143,110 @@ def run(ctx):
     for k, case in enumerate(clause_cases()):
         if ctx.mine(k):
             compare(ctx, case, "clause")
+    # histories of definitions under one ARN
+    for k in range(ctx.pick(160, 3000)):
+        if ctx.mine(k):
+            redefinition_case(ctx, k)
+
+
+def redefine(rng, asl, funcs):
+    """The same machine with the same state names, in which states (also those inside branches and item processors) prescribe something else."""
+    new = copy.deepcopy(asl)
+    fns = sorted(fn for fn, b in funcs.items() if b[0] in ("echo", "wrap", "const"))
+    changed = 0
+    for name, st in G.all_states(new):
+        r = rng.random()
+        if st.get("Type") == "Pass" and r < 0.8:
+            st["Result"] = {"redefined": name, "n": rng.randrange(100)}; changed += 1
+        elif st.get("Type") == "Task" and fns and r < 0.6 and st.get("Resource", "").startswith(G.FN_PREFIX) and st["Resource"][len(G.FN_PREFIX):] in fns:
+            st["Resource"] = G.FN_PREFIX + rng.choice(fns); changed += 1
+        elif st.get("Type") == "Fail" and r < 0.6:
+            st["Error"] = "Redefined." + name.replace(" ", ""); changed += 1
+        elif st.get("Type") == "Wait" and "Seconds" in st and r < 0.5:
+            st["Seconds"] = st["Seconds"] + 1
+    return new, changed
+
+
+def redefinition_case(ctx, k):
+    """One engine, one state machine ARN, a history of definitions: create / execute / UpdateStateMachine (or delete and create again) / execute ...
+    Every execution must come out as the reference prescribes for the definition that was current when it started."""
+    from lsfverif.sim.world import World
+    rng = ctx.rng("redef", k)
+    if k % 4 == 0:
+        inner = lambda v: {"StartAt": "i" + v, "States": {"i" + v: {"Type": "Pass", "Result": v, "End": True}}}
+        fan = {"Type": "Parallel", "Branches": [inner("a"), inner("b")], "Next": "Z"} if k % 8 == 0 else \
+            {"Type": "Map", "ItemsPath": "$.xs", "MaxConcurrency": rng.choice([0, 1, 2]), "ItemProcessor": inner("a"), "Next": "Z"}
+        asl, data, funcs = {"StartAt": "F", "States": {"F": fan, "Z": {"Type": "Pass", "End": True}}}, {"xs": [1, 2, 3]}, {}
+    else:
+        case = corpus.generated_case(rng, depth=2, max_states=5, allow=None, dict_input=True, p_catch=0.3, p_retry=0.0)
+        asl, data, funcs = case["asl"], case["input"], case["funcs"]
+        if any(b[0] in ("flaky", "seq", "silent") for b in funcs.values()):
+            ctx.count("redefinition_skipped_stateful")
+            return
+    ctx.evaluation()
+    name = "rd%d" % k
+    with World(seed=ctx.seed) as w:
+        beh = G.worker_behaviour(funcs)
+        for fn in funcs:
+            w.add_worker(fn, beh)
+        code, body = w.api("CreateStateMachine", {"name": name, "definition": json.dumps(asl), "roleArn": "arn:aws:iam::0123456789:role/r"})
+        if code != 200:
+            ctx.count("redefinition_create_refused")
+            return
+        sm = body["stateMachineArn"]
+        current = asl
+        history = []
+        for gen_no in range(rng.choice([2, 3, 4])):
+            if gen_no:
+                current, changed = redefine(rng, current, funcs)
+                how = rng.choice(["update", "update", "delete-create"])
+                if how == "update":
+                    code, body = w.api("UpdateStateMachine", {"stateMachineArn": sm, "definition": json.dumps(current)})
+                else:
+                    w.api("DeleteStateMachine", {"stateMachineArn": sm})
+                    code, body = w.api("CreateStateMachine", {"name": name, "definition": json.dumps(current), "roleArn": "arn:aws:iam::0123456789:role/r"})
+                if code != 200:
+                    ctx.violation("well-formed-redefinition-refused", dict(asl=current, how=how, code=code, body=body), None)
+                    return
+                ctx.count("redefinitions"); ctx.count("redefinition:" + how); ctx.count("redefined_states", changed)
+            ename = "e%d" % gen_no
+            code, body = w.api("StartExecution", {"stateMachineArn": sm, "name": ename, "input": json.dumps(data)})
+            if code != 200:
+                ctx.violation("well-formed-start-refused", dict(asl=current, code=code, body=body), None)
+                return
+            ex = body["executionArn"]
+            w.run()
+            try:
+                outs = R.outcomes(current, lambda: G.task_oracle(funcs), data, limit=64, exec_id=ex, exec_name=ename, sm_id=sm)
+            except R.Unspecified:
+                ctx.count("unspecified")
+                history.append(dict(definition=current, execution=ex, judged=False))
+                continue
+            st, out, err, t = w.outcome(ex)
+            history.append(dict(definition=current, execution=ex, engine=[st, out, err], expected=[repr(o) for o in outs[:3]]))
+            ctx.count("compared"); ctx.count("redefinition_executions_compared")
+            if "Parallel" in corpus.state_types(current) or "Map" in corpus.state_types(current):
+                ctx.count("redefinition_executions_with_fanout")
+            if not corpus.agrees(outs, st, out, err):
+                single = None
+                if gen_no:
+                    # the same definition and input in a world of their own: is it the history that matters?
+                    c1 = _case(current, data, funcs)
+                    r1 = S.execute(c1["scenario"], seed=ctx.seed)
+                    try:
+                        a1 = r1.execs[0] if getattr(r1, "execs", None) else None
+                        single = list(r1.outcomes.get(a1, ("NONE", None, None, None)))[:3] if a1 else None
+                    finally:
+                        S.close(r1)
+                    outs1 = corpus.reference(c1)
+                    if single is not None and not corpus.agrees(outs1, *single):
+                        # wrong on its own as well: the generated families judge (and attribute) that; not this family's business
+                        ctx.count("redefinition_case_wrong_without_history")
+                        return
+                ctx.violation("execution-does-not-follow-the-definition-current-at-its-start" if gen_no else "outcome-not-admissible",
+                              dict(history=history, input=data, funcs=funcs, alone=single, seed=ctx.seed, family="redefinition", k=k),
+                              None if gen_no else classify(dict(asl=current, input=data, funcs=funcs), outs, (st, out, err), stuck=(st == "NONE")))
+                return
 
 
 def _case(asl, data, funcs=None):
@@ -219,6 +323,22 @@ def clause_cases():
                     m["Catch"] = [{"ErrorEquals": ["States.ALL"], "ResultPath": "$.err", "Next": "H"}]
                 out.append(_case({"StartAt": "M", "States": {"M": m, "H": P(Result="handled", ResultPath="$.h", End=True)}},
                                  {"id": 7, "job": {"items": [1, 2, 3], "tag": "t"}}, {"echo": ["echo"], "bad": ["fail", "Boom"]}))
+    # a Retrier on the fan-out state itself, with and without batches: the retry budget is the state's, whichever batch the failing
+    # item is in, and every retry runs all items again
+    for n_items in (2, 3, 4):
+        for mc in (0, 1, 2):
+            for attempts in (0, 1, 2):
+                for fn, funcs in (("odd", {"odd": ["fail_if", "i", 1]}), ("fl1", {"fl1": ["flaky", ["Boom"]]}), ("fl2", {"fl2": ["flaky", ["Boom", "Boom"]]})):
+                    for catch in (False, True):
+                        if catch and fn != "odd":
+                            continue
+                        m = {"Type": "Map", "ItemsPath": "$.items", "MaxConcurrency": mc, "End": True,
+                             "Retry": [{"ErrorEquals": ["States.ALL"], "IntervalSeconds": 1, "MaxAttempts": attempts, "BackoffRate": 1.0}],
+                             "ItemProcessor": {"StartAt": "w", "States": {"w": T(fn, End=True)}}}
+                        if catch:
+                            m["Catch"] = [{"ErrorEquals": ["States.ALL"], "ResultPath": "$.err", "Next": "H"}]
+                        out.append(_case({"StartAt": "M", "States": {"M": m, "H": P(Result="handled", ResultPath="$.h", End=True)}},
+                                         {"items": [{"i": k} for k in range(n_items)]}, funcs))
     return out
 
 
